@@ -89,13 +89,15 @@ Proof.
   revert s; induction nz as [|nz IH]; intros s; [reflexivity|]. cbn [rd_entries_l]. rewrite readline_nat. cbn [fst snd].
   now rewrite entry_of_line_nat, IH.
 Qed.
+Lemma drop_lines_nat n s : drop_lines D n (pstream s) = pstream (drop_lines T n s).
+Proof. revert s; induction n as [|n IH]; intros s; [reflexivity|]. cbn [drop_lines]. rewrite readline_nat. cbn [snd]. apply IH. Qed.
 Lemma rd_factors_l_nat R n s : rd_factors_l D D idD ofZ R n (pstream s) = rd_factors_l D T parse ofZ R n s.
 Proof.
   revert s; induction n as [|n IH]; intros s; [reflexivity|]. cbn [rd_factors_l]. rewrite readline_nat. cbn [fst snd].
   rewrite rd_shape_l_nat. destruct (rd_shape_l T _) as [[sh r]|]; [|reflexivity]. cbn [option_map bindo pq fst snd].
   destruct sh as [|m [|c [|k sh']]]; try reflexivity. destruct (Nat.eqb c R); [|reflexivity].
   rewrite rd_vals_nat. destruct (rd_vals D T parse ofZ (m * c) r) as [[v r']|]; [|reflexivity].
-  cbn [option_map bindo pq fst snd]. now rewrite IH.
+  cbn [option_map bindo pq fst snd]. destruct (Nat.eqb (m * c) 0); [rewrite drop_lines_nat|]; now rewrite IH.
 Qed.
 
 (* import_data looks at a number text only through parse *)
@@ -116,8 +118,8 @@ Proof.
   destruct (String.eqb w "ktensor"); [|reflexivity].
   rewrite rd_shape_z_nat. destruct (rd_shape_z T _) as [[sh r]|]; [|reflexivity]. cbn [option_map bindo pq fst snd].
   rewrite readline_nat. cbn [fst snd]. rewrite head_int_nat. destruct (head_int T _); [|reflexivity]. cbn [bindo].
-  destruct (nat_of z); [|reflexivity]. cbn [bindo]. rewrite rd_weights_nat. unfold pq. cbn [fst snd].
-  now rewrite rd_factors_l_nat.
+  destruct (nat_of z) as [r0|]; [|reflexivity]. cbn [bindo]. rewrite rd_weights_nat. unfold pq. cbn [fst snd].
+  destruct (Nat.eqb r0 0); [rewrite readline_nat; cbn [snd]|]; now rewrite rd_factors_l_nat.
 Qed.
 Corollary import_lines_nat b f : import_lines D D d0 idD ofZ b (plines f) = import_lines D T d0 parse ofZ b f.
 Proof. unfold import_lines. now rewrite <- to_stream_nat, import_stream_nat. Qed.
@@ -196,8 +198,7 @@ Qed.
 Lemma wf_lines_map_obj o : wf_lines D o -> wf_lines D (map_obj rnd o).
 Proof.
   destruct o as [X|Sp|K|m n A|s c]; cbn [wf_lines map_obj]; auto.
-  unfold krank. cbn [kweights kfactors]. rewrite map_length. intros [H1 H2]. split; [|exact H2].
-  destruct (kfactors K); [congruence|discriminate].
+  cbn [kfactors]. intros H1. destruct (kfactors K); [congruence|discriminate].
 Qed.
 
 (* ANY format: import (export_fmt o) = o with every value replaced by parse (print v) *)
